@@ -21,7 +21,7 @@ func c18(c *eng.Ctx, r *eng.Report) {
 	r.Level = "proof"
 	r.Explain = "strToBigInt is exact on every decimal string with at most 18 fractional and 78 integer digits, and strToBigInt(bigIntToStr(n,18),18) = n, by abstract interpretation of the function over {exact decimal, big.Float with relative error bound and direction}: the checker extracts prec, the rounding mode, the base and the pipeline ParseFloat → (*Float).Mul(target, target, base) → (*Float).Int from the SSA and discharges O1 prec >= bitlen(10^96)+3, O2 both roundings err away from zero (mode AwayFromZero inherited by Mul's receiver), O3 N_max·((1+2^(1-prec))^2-1) < 1 hence trunc(r) = N, O4 bigIntToStr/BigIntToStr are float-free string arithmetic emitting exactly `precision` fractional digits, O5 the ERC20/Rocket formatters are compositions of the two and every balance read/write in accountdb_tuntun.go passes them, O6 the value of a wrapped Ethereum transaction travels ConvertTx → TransferValue → decodeContractData as BigIntToStr(value) → StrToBigInt(string) with no intermediate rewriting and no floating-point type, and the assignment in ConvertTx is conditional on nothing but the value being non-nil (a creation, which has no recipient, carries its value like a call). " +
 		"O7 the converters consult no process-local state (no cache, package-variable store or shared object in their cone), so the result depends on the arguments only. " +
-		"Lemma (written out): for a decimal q = N/10^d with N < 10^96, r1 = round_away(q) satisfies |q| <= |r1| < |q|(1+e), e = 2^(1-prec); base = 10^d is exact (SetInt); r2 = round_away(r1·base) satisfies N <= |r2| < N(1+e)^2; O3 gives N(1+e)^2 - N < 1, so trunc(r2) = N. With a to-nearest mode r2 could fall below N and truncate to N-1, hence O2; O9 the wrapper built by ConvertTx owns its Data string: the eth_tx functions under ConvertTx take nothing from a pool except the reviewed keccak state of rlpHash, and none of them turns a byte slice into a string without copying (utility.BytesToStr) — a Data string that aliases a pooled buffer is rewritten by the next ConvertTx, and earlier transactions then decode with the last one's TransferValue; O8 the decoded value of a wrapped transaction is read-only on its way to the EVM: no function of the executor package calls a mutating (*big.Int) method (Add, Sub, Mul, Set…) with ContractData.TransferValue as its receiver — the struct travels by value but the *big.Int inside is the one stored in context[\"contractData\"], so an in-place sum in the fee pre-check changes the amount handed to vm.Call. " +
+		"Lemma (written out): for a decimal q = N/10^d with N < 10^96, r1 = round_away(q) satisfies |q| <= |r1| < |q|(1+e), e = 2^(1-prec); base = 10^d is exact (SetInt); r2 = round_away(r1·base) satisfies N <= |r2| < N(1+e)^2; O3 gives N(1+e)^2 - N < 1, so trunc(r2) = N. With a to-nearest mode r2 could fall below N and truncate to N-1, hence O2; O10 the unit a token amount is re-scaled to comes from the state at hand: GetERC20Binding and the FT accessors of AccountDB consult no process-wide memo beside the reviewed write-once address of the native binding — a binding cached by name outlives the revert (or the fork) it was created in, and a later binding of the same name is read and written with the stale contract, slot and decimal count (SetFT(1234567890123456789) reads back 1234567000000000000); O9 the wrapper built by ConvertTx owns its Data string: the eth_tx functions under ConvertTx take nothing from a pool except the reviewed keccak state of rlpHash, and none of them turns a byte slice into a string without copying (utility.BytesToStr) — a Data string that aliases a pooled buffer is rewritten by the next ConvertTx, and earlier transactions then decode with the last one's TransferValue; O8 the decoded value of a wrapped transaction is read-only on its way to the EVM: no function of the executor package calls a mutating (*big.Int) method (Add, Sub, Mul, Set…) with ContractData.TransferValue as its receiver — the struct travels by value but the *big.Int inside is the one stored in context[\"contractData\"], so an in-place sum in the fee pre-check changes the amount handed to vm.Call. " +
 		"Not decided: strings with more than 18 fractional digits, non-decimal syntaxes accepted by ParseFloat."
 	r.Trusted = []string{"math/big rounding semantics as documented (ParseFloat rounds once to prec with the given mode; z.Mul rounds to z's precision with z's mode; SetInt is exact when prec >= bit length; Int truncates toward zero)", "go/types constant evaluation", "go/ssa lowering", "the error-propagation lemma in coverage.explanation"}
 	c18Parse(c, r)
@@ -31,6 +31,7 @@ func c18(c *eng.Ctx, r *eng.Report) {
 	c18Pure(c, r)
 	c18ValueNotMutated(c, r)
 	c18WrapperOwnsItsData(c, r)
+	c18BindingFromState(c, r)
 }
 
 func c18Parse(c *eng.Ctx, r *eng.Report) {
@@ -479,5 +480,40 @@ func c18WrapperOwnsItsData(c *eng.Ctx, r *eng.Report) {
 	}
 	if hits == 0 {
 		r.Pass(rule, "wrapper-owns-data", c.Pos(conv.Pos()), fmt.Sprintf("%d eth_tx functions under ConvertTx: no pool beside hasherPool, no zero-copy string", n))
+	}
+}
+
+// c18BindingFromState: O10.
+func c18BindingFromState(c *eng.Ctx, r *eng.Report) {
+	const rule = "O10"
+	var entries []*ssa.Function
+	for _, n := range []string{"(*AccountDB).GetERC20Binding", "(*AccountDB).GetFT", "(*AccountDB).SetFT", "(*AccountDB).AddFT", "(*AccountDB).SubFT"} {
+		if f := c.Func("storage/account", n); f != nil {
+			entries = append(entries, f)
+		}
+	}
+	if !r.Anchor(len(entries) >= 4, rule, "AccountDB.GetERC20Binding and the FT accessors") {
+		return
+	}
+	hits := 0
+	for _, fn := range entries {
+		for _, h := range eng.ScanNondeterminism(fn) {
+			switch h.Kind {
+			case "cache", "syncmap-range", "shared-object", "global-store":
+			default:
+				continue
+			}
+			hits++
+			r.Fail(rule, h.Kind+":"+eng.FuncName(fn), c.Pos(h.Pos), h.Detail+" in "+eng.FuncName(fn)+": the contract, slot and decimal count a token amount is re-scaled with then come from what this process saw earlier, not from the state the call is made on — a binding created and used inside a reverted snapshot (or on another fork) answers for a later binding of the same name")
+		}
+		for _, s := range eng.Sites(fn) {
+			if strings.HasPrefix(s.Name(), "(*sync.Map).") {
+				hits++
+				r.Fail(rule, "syncmap:"+eng.FuncName(fn), c.Pos(s.Pos()), s.Name()+" in "+eng.FuncName(fn)+": a process-wide map in the path that decides which contract, slot and decimal count a balance is read and written with")
+			}
+		}
+	}
+	if hits == 0 {
+		r.Pass(rule, "binding:from-state", "", fmt.Sprintf("%d accessors, no process-wide memo", len(entries)))
 	}
 }
